@@ -1,12 +1,550 @@
-// Package c12 checks property C12 (not built yet).
+// Package c12 checks property C12: translation is deterministic.
 package c12
 
 import (
+	"bytes"
+	"crypto/sha256"
+	"encoding/hex"
+	"encoding/json"
+	"fmt"
+	"math/rand"
+	"os"
+	"os/exec"
+	"path/filepath"
+	"reflect"
+	"sort"
+	"strings"
+	"sync"
+	"time"
+
+	"github.com/llir/llvm/asm"
+	"github.com/llir/llvm/ir"
+	"github.com/llir/llvm/ir/constant"
+	"github.com/llir/llvm/ir/metadata"
+	"github.com/llir/llvm/ir/types"
+
+	"verif/harness/llvmoracle"
 	"verif/harness/mbt"
+	"verif/harness/props/irwalk"
 	"verif/harness/props/reg"
+	"verif/harness/props/trcheck"
+	"verif/harness/props/trsrc"
 )
 
 func init() { reg.Register("C12", Run) }
 
+// outcome of one parse: accept/reject, printed text, structural digest.
+type outcome struct {
+	Status string `json:"status"` // "ok", "err", "panic"
+	Text   string `json:"text"`   // sha of printed text ("" unless ok)
+	Digest string `json:"digest"`
+}
+
+func sha(s string) string {
+	h := sha256.Sum256([]byte(s))
+	return hex.EncodeToString(h[:])[:24]
+}
+
+func summarize(m *ir.Module, err error, p string) outcome {
+	switch {
+	case p != "":
+		return outcome{Status: "panic"}
+	case err != nil:
+		return outcome{Status: "err"} // the message may legitimately depend on the processing order
+	}
+	var text string
+	if msg, pp := mbt.Guard(func() { text = m.String() }); pp {
+		return outcome{Status: "ok", Text: "print-panic:" + sha(msg)}
+	}
+	// the digest is taken after printing (printing assigns IDs; both sides are printed)
+	return outcome{Status: "ok", Text: sha(text), Digest: irwalk.Digest(m)}
+}
+
+func parseString(text string) outcome {
+	m, err, p := trcheck.ParseReal("in.ll", text)
+	return summarize(m, err, p)
+}
+
+// the four entry points
+func entryPoints(dir, text string) map[string]outcome {
+	out := map[string]outcome{}
+	out["ParseString"] = parseString(text)
+	var m *ir.Module
+	var err error
+	p, _ := mbt.Guard(func() { m, err = asm.ParseBytes("in.ll", []byte(text)) })
+	out["ParseBytes"] = summarize(m, err, p)
+	m, err = nil, nil
+	p, _ = mbt.Guard(func() { m, err = asm.Parse("in.ll", strings.NewReader(text)) })
+	out["Parse"] = summarize(m, err, p)
+	path := filepath.Join(dir, "in.ll")
+	os.WriteFile(path, []byte(text), 0o644)
+	m, err = nil, nil
+	p, _ = mbt.Guard(func() { m, err = asm.ParseFile(path) })
+	out["ParseFile"] = summarize(m, err, p)
+	return out
+}
+
+// --- hook recording ---------------------------------------------------------
+
+type event struct {
+	Phase, Key string
+}
+
+var (
+	hookMu  sync.Mutex
+	hookRec map[interface{}][]event
+)
+
+func hookOn() {
+	hookMu.Lock()
+	hookRec = map[interface{}][]event{}
+	hookMu.Unlock()
+	asm.VerifHook = func(gen interface{}, phase, key string) {
+		hookMu.Lock()
+		hookRec[gen] = append(hookRec[gen], event{phase, key})
+		hookMu.Unlock()
+	}
+}
+
+func hookOff() [][]event {
+	asm.VerifHook = nil
+	hookMu.Lock()
+	defer hookMu.Unlock()
+	var out [][]event
+	for _, evs := range hookRec {
+		out = append(out, evs)
+	}
+	hookRec = nil
+	return out
+}
+
+var phaseMap = map[string]string{
+	"createType": "createType", "translateType": "translateType", "translateComdat": "translateComdat",
+	"createGlobal": "createGlobal", "createAttrGroup": "createAttr", "createNamedMetadata": "createNmd",
+	"createMetadata": "createMd", "translateGlobal": "translateGlobal", "translateAttrGroup": "translateAttr",
+	"translateNamedMetadata": "translateNmd", "translateMetadata": "translateMd",
+}
+
+func modelKey(phase, key string) string {
+	switch phase {
+	case "createGlobal", "translateGlobal":
+		if len(key) > 1 && key[0] == '@' && (key[1] < '0' || key[1] > '9') {
+			return key[1:]
+		}
+		return key // unnamed: "@0"
+	case "createAttrGroup", "translateAttrGroup":
+		return strings.TrimPrefix(key, "#")
+	case "createMetadata", "translateMetadata":
+		return strings.TrimPrefix(key, "!")
+	}
+	return key
+}
+
+type traceRow struct {
+	Ev    string         `json:"ev"`
+	Src   []trsrc.Entity `json:"src,omitempty"`
+	Phase string         `json:"phase,omitempty"`
+	Key   string         `json:"key,omitempty"`
+	St    string         `json:"st,omitempty"`
+}
+
+func normSrc(src []trsrc.Entity) []trsrc.Entity {
+	// JSON must carry every field of the TLA+ records, empty sequences included
+	out := make([]trsrc.Entity, len(src))
+	for i, e := range src {
+		if e.Refs == nil {
+			e.Refs = []trsrc.Ref{}
+		}
+		if e.Locals == nil {
+			e.Locals = []trsrc.Local{}
+		}
+		ls := make([]trsrc.Local, len(e.Locals))
+		for j, l := range e.Locals {
+			if l.Refs == nil {
+				l.Refs = []trsrc.Ref{}
+			}
+			ls[j] = l
+		}
+		e.Locals = ls
+		out[i] = e
+	}
+	return out
+}
+
+// --- child mode --------------------------------------------------------------
+
+type childIn struct {
+	Texts      []string `json:"texts"`
+	Goroutines int      `json:"goroutines"`
+	Rounds     int      `json:"rounds"`
+}
+
+type childOut struct {
+	Seq  []outcome   `json:"seq"`  // one sequential parse per text
+	Conc [][]outcome `json:"conc"` // per round, per text (parsed concurrently)
+}
+
+func child(path string) {
+	var in childIn
+	if err := mbt.ReadJSON(path, &in); err != nil {
+		fmt.Fprintln(os.Stderr, "child:", err)
+		os.Exit(3)
+	}
+	var out childOut
+	for _, t := range in.Texts {
+		out.Seq = append(out.Seq, parseString(t))
+	}
+	for r := 0; r < in.Rounds; r++ {
+		res := make([]outcome, len(in.Texts))
+		var wg sync.WaitGroup
+		ch := make(chan int)
+		start := make(chan struct{})
+		for g := 0; g < in.Goroutines; g++ {
+			wg.Add(1)
+			go func() {
+				defer wg.Done()
+				<-start
+				for i := range ch {
+					res[i] = parseString(in.Texts[i])
+				}
+			}()
+		}
+		close(start)
+		for i := range in.Texts {
+			ch <- i
+		}
+		close(ch)
+		wg.Wait()
+		out.Conc = append(out.Conc, res)
+	}
+	b, _ := json.Marshal(out)
+	os.Stdout.Write(b)
+	os.Exit(0)
+}
+
+func runChild(dir string, in childIn) (childOut, string) {
+	path := filepath.Join(dir, "child-in.json")
+	b, _ := json.Marshal(in)
+	os.WriteFile(path, b, 0o644)
+	cmd := exec.Command("timeout", "600", os.Args[0], "quick")
+	cmd.Env = append(os.Environ(), "VERIF_C12_CHILD="+path, "GORACE=halt_on_error=0")
+	var so, se bytes.Buffer
+	cmd.Stdout, cmd.Stderr = &so, &se
+	err := cmd.Run()
+	var out childOut
+	if e := json.Unmarshal(so.Bytes(), &out); e != nil {
+		mbt.Infra("child process produced no result (%v, %v): %s", err, e, mbt.Truncate(se.String(), 2000))
+	}
+	return out, se.String()
+}
+
+// raceSignatures extracts one signature per race report: the sorted pair of top frames.
+func raceSignatures(stderr string) map[string]string {
+	sigs := map[string]string{}
+	reports := strings.Split(stderr, "WARNING: DATA RACE")
+	for _, r := range reports[1:] {
+		var tops []string
+		lines := strings.Split(r, "\n")
+		for i, l := range lines {
+			t := strings.TrimSpace(l)
+			if (strings.HasPrefix(t, "Write at") || strings.HasPrefix(t, "Read at") || strings.HasPrefix(t, "Previous write at") || strings.HasPrefix(t, "Previous read at")) && i+1 < len(lines) {
+				fn := strings.TrimSpace(lines[i+1])
+				if k := strings.LastIndex(fn, "("); k > 0 {
+					fn = fn[:k]
+				}
+				tops = append(tops, fn)
+			}
+		}
+		sort.Strings(tops)
+		sig := strings.Join(tops, " <-> ")
+		if _, ok := sigs[sig]; !ok {
+			sigs[sig] = mbt.Truncate(r, 1500)
+		}
+	}
+	return sigs
+}
+
+// --- singletons ---------------------------------------------------------------
+
+func singletons() string {
+	vals := []interface{}{types.Void, types.MMX, types.Label, types.Token, types.Metadata,
+		types.I1, types.I8, types.I16, types.I32, types.I64, types.I128, types.Half, types.Float, types.Double, types.X86_FP80, types.FP128, types.PPC_FP128,
+		types.I1Ptr, types.I8Ptr, types.I32Ptr, types.I64Ptr,
+		constant.True, constant.False, constant.None, metadata.Null}
+	var sb strings.Builder
+	for _, v := range vals {
+		sb.WriteString(irwalk.Digest(v))
+		sb.WriteString(reflect.TypeOf(v).String())
+	}
+	return sha(sb.String())
+}
+
+// --- large inputs (>= 9 entities per index: per-map hash seeds matter) ---------
+
+func bigModule(rng *rand.Rand, n int) string {
+	var sb strings.Builder
+	perm := rng.Perm(n)
+	for _, i := range perm {
+		fmt.Fprintf(&sb, "%%t%d = type { i32, %%t%d*, %%t%d* }\n", i, (i+1)%n, (i*7+3)%n)
+	}
+	for _, i := range rng.Perm(n) {
+		fmt.Fprintf(&sb, "$c%d = comdat any\n", i)
+	}
+	for _, i := range rng.Perm(n) {
+		fmt.Fprintf(&sb, "@g%d = global %%t%d* null, comdat($c%d), !foo !%d\n", i, (i*3)%n, (i+2)%n, (i*5)%n)
+	}
+	for _, i := range rng.Perm(n) {
+		fmt.Fprintf(&sb, "@a%d = alias i8, bitcast (%%t%d** @g%d to i8*)\n", i, (i*3+3)%n*0+((i+1)*3)%n, (i+1)%n)
+	}
+	for _, i := range rng.Perm(n) {
+		fmt.Fprintf(&sb, "define void @f%d(i32 %%p) #%d {\nentry:\n  %%x = ptrtoint %%t%d** @g%d to i32\n  call void @f%d(i32 %%x), !foo !%d\n  br label %%next\nnext:\n  %%y = phi i32 [ %%x, %%entry ], [ %%z, %%next ]\n  %%z = add i32 %%y, %%p\n  br label %%next\n}\n",
+			i, i%5, (i*3)%n, i, (i+1)%n, (i+4)%n)
+	}
+	for _, i := range rng.Perm(5) {
+		fmt.Fprintf(&sb, "attributes #%d = { nounwind \"k%d\" }\n", i, i)
+	}
+	for _, i := range rng.Perm(n) {
+		fmt.Fprintf(&sb, "!nm%d = !{!%d, !%d}\n", i%7, i, (i+1)%n)
+	}
+	for _, i := range rng.Perm(n) {
+		d := ""
+		if i%3 == 0 {
+			d = "distinct "
+		}
+		fmt.Fprintf(&sb, "!%d = %s!{!%d, %%t%d** @g%d, i32 %d}\n", i, d, (i+1)%n, (i*3)%n, i, i)
+	}
+	return sb.String()
+}
+
+// --- the check ------------------------------------------------------------------
+
 // Run is the C12 check.
-func Run(tier, replay string) { mbt.Infra("check C12 is not built yet") }
+func Run(tier, replay string) {
+	if p := os.Getenv("VERIF_C12_CHILD"); p != "" {
+		child(p)
+	}
+	rep := mbt.NewReport("C12", tier, "model_checking")
+	rep.Rule = "a case is one input (TLC vector of Translate.tla: reference patterns, their faults and permutations; repository test inputs; llvm-stress programs; generated modules with >= 9 entities per index) parsed repeatedly: in one process, through the four entry points, after unrelated activity, concurrently on 8 goroutines under the race detector and in fresh processes; status, printed text and structural digest must all be equal; the translator's hook events are replayed as Pick actions of Translate.tla"
+	rng := rand.New(rand.NewSource(mbt.Seed()))
+	dir, err := os.MkdirTemp("", "verif-c12-")
+	if err != nil {
+		mbt.Infra("%v", err)
+	}
+	defer os.RemoveAll(dir)
+
+	reps, nStress, children, rounds := 12, 12, 3, 2
+	if tier == "thorough" {
+		reps, nStress, children, rounds = 60, 80, 8, 6
+	}
+
+	// inputs
+	type input struct {
+		name string
+		text string
+		src  []trsrc.Entity // abstract source if the input is a TLC vector
+		want string
+	}
+	var inputs []input
+	if replay != "" {
+		var rf struct {
+			Failures []struct {
+				Case map[string]string `json:"case"`
+			} `json:"failures"`
+		}
+		if err := mbt.ReadJSON(replay, &rf); err != nil {
+			mbt.Infra("replay: %v", err)
+		}
+		for _, f := range rf.Failures {
+			inputs = append(inputs, input{name: "replay", text: f.Case["src"]})
+		}
+		reps = 200
+	} else {
+		// (S) TLC: Deterministic on every processing order; (G) its sources
+		for _, set := range []string{"all", "perms"} {
+			for _, v := range trcheck.Generate(rep, set, 4) {
+				inputs = append(inputs, input{name: "vector/" + set, text: trsrc.Render(v.Src), src: v.Src, want: v.Want.St})
+			}
+		}
+		var files []string
+		for _, g := range []string{"testdata/*.ll", "asm/testdata/*.ll", "ir/testdata/*.ll"} {
+			fs, _ := filepath.Glob(filepath.Join(mbt.Repo, g))
+			files = append(files, fs...)
+		}
+		sort.Strings(files)
+		for _, f := range files {
+			if b, err := os.ReadFile(f); err == nil {
+				inputs = append(inputs, input{name: "testdata/" + filepath.Base(f), text: string(b)})
+			}
+		}
+		stress := make([]string, nStress)
+		llvmoracle.Parallel(nStress, func(i int) {
+			out, _, code, err := mbt.Tool(nil, 60*time.Second, "llvm-stress", "-size=150", fmt.Sprintf("-seed=%d", mbt.Seed()*7919+int64(i)))
+			if err == nil && code == 0 {
+				stress[i] = string(out)
+			}
+		})
+		for i, s := range stress {
+			if s != "" {
+				inputs = append(inputs, input{name: fmt.Sprintf("llvm-stress/%d", i), text: s})
+			}
+		}
+		for k := 0; k < 3; k++ {
+			inputs = append(inputs, input{name: fmt.Sprintf("big/%d", k), text: bigModule(rng, 12+7*k)})
+		}
+	}
+
+	single0 := singletons()
+
+	// 1. repetitions in this process with hooks on; entry points
+	var rows []traceRow
+	traces := 0
+	ordersSeen := map[string]map[string]bool{} // input -> set of processing orders
+	base := make([]outcome, len(inputs))
+	for i, in := range inputs {
+		hookOn()
+		base[i] = parseString(in.text)
+		evs := hookOff()
+		ordersSeen[in.name+"\x00"+in.text] = map[string]bool{}
+		record := func(evs [][]event, st string) {
+			for _, e := range evs {
+				var key strings.Builder
+				for _, x := range e {
+					key.WriteString(x.Phase + ":" + x.Key + ";")
+				}
+				set := ordersSeen[in.name+"\x00"+in.text]
+				if set[key.String()] {
+					continue
+				}
+				set[key.String()] = true
+				// only executions whose outcome the model shares are replayed (a differing
+				// outcome is C05's / C01's finding, not a statement about determinism)
+				if in.src != nil && len(set) <= 6 && st == in.want {
+					rows = append(rows, traceRow{Ev: "src", Src: normSrc(in.src)})
+					for _, x := range e {
+						if ph, ok := phaseMap[x.Phase]; ok {
+							rows = append(rows, traceRow{Ev: "pick", Phase: ph, Key: modelKey(x.Phase, x.Key)})
+						}
+					}
+					rows = append(rows, traceRow{Ev: "end", St: st})
+					traces++
+				}
+			}
+		}
+		record(evs, base[i].Status)
+		nontrivial := base[i].Status == "ok" || in.src != nil
+		rep.Count(in.name+"\x00"+in.text, nontrivial)
+		if len(rep.Samples) < 3 && in.src != nil {
+			rep.Sample(map[string]interface{}{"input": in.name, "text": in.text, "outcome": base[i]})
+		}
+		fail := func(how string, got outcome) {
+			class := "status"
+			if got.Status == base[i].Status {
+				class = "text"
+				if got.Text == base[i].Text {
+					class = "structure"
+				}
+			}
+			rep.Fail(mbt.Failure{Signature: "C12|" + how + "|" + class + "|" + strings.SplitN(in.name, "/", 2)[0],
+				What: fmt.Sprintf("%s: outcome %+v differs from first parse %+v (input %s)", how, got, base[i], in.name), Case: map[string]string{"src": in.text}})
+		}
+		if in.want != "" && base[i].Status != in.want && !(in.want == "err" && base[i].Status == "ok") {
+			// acceptance against the model is C05/C01's business, but a crash is never deterministic behaviour we accept
+			if base[i].Status == "panic" {
+				rep.Note("input %s panics the parser (reported by C05/C01)", in.name)
+			}
+		}
+		for r := 0; r < reps; r++ {
+			hookOn()
+			o := parseString(in.text)
+			record(hookOff(), o.Status)
+			if o != base[i] {
+				fail("repetition", o)
+				break
+			}
+		}
+		if i%7 == 0 || replay != "" {
+			for ep, o := range entryPoints(dir, in.text) {
+				if o != base[i] {
+					fail("entry-point "+ep, o)
+				}
+			}
+		}
+	}
+	// 2. after unrelated activity: parse everything in reverse order, then re-check
+	for i := len(inputs) - 1; i >= 0; i-- {
+		if o := parseString(inputs[i].text); o != base[i] {
+			rep.Fail(mbt.Failure{Signature: "C12|after-other-activity|" + strings.SplitN(inputs[i].name, "/", 2)[0],
+				What: fmt.Sprintf("outcome %+v differs from first parse %+v after other inputs were parsed and printed", o, base[i]), Case: map[string]string{"src": inputs[i].text}})
+		}
+	}
+	if s := singletons(); s != single0 {
+		rep.Fail(mbt.Failure{Signature: "C12|package-level-state-mutated", What: "a package-level singleton (types.I1.., constant.True/False/None, metadata.Null) changed during parsing/printing", Case: map[string]string{}})
+	}
+	// 3. fresh processes, concurrent parses under the race detector
+	texts := make([]string, len(inputs))
+	for i := range inputs {
+		texts[i] = inputs[i].text
+	}
+	for c := 0; c < children; c++ {
+		out, stderr := runChild(dir, childIn{Texts: texts, Goroutines: 8, Rounds: rounds})
+		for sig, report := range raceSignatures(stderr) {
+			rep.Fail(mbt.Failure{Signature: "C12|data-race|" + sig, What: "race detector report during concurrent parses of unrelated inputs:\n" + report, Case: map[string]string{}})
+		}
+		for i := range inputs {
+			if i < len(out.Seq) && out.Seq[i] != base[i] {
+				rep.Fail(mbt.Failure{Signature: "C12|fresh-process|" + strings.SplitN(inputs[i].name, "/", 2)[0],
+					What: fmt.Sprintf("outcome in a fresh process %+v differs from %+v", out.Seq[i], base[i]), Case: map[string]string{"src": inputs[i].text}})
+			}
+			for r := range out.Conc {
+				if i < len(out.Conc[r]) && out.Conc[r][i] != base[i] {
+					rep.Fail(mbt.Failure{Signature: "C12|concurrent-parse|" + strings.SplitN(inputs[i].name, "/", 2)[0],
+						What: fmt.Sprintf("outcome while 8 goroutines parse concurrently %+v differs from %+v", out.Conc[r][i], base[i]), Case: map[string]string{"src": inputs[i].text}})
+				}
+			}
+		}
+	}
+	// 4. (T) hook traces replayed as actions of Translate.tla
+	if len(rows) > 0 {
+		t := mbt.MustTLCAllowDeadlock(mbt.TLCOpts{Spec: "TranslateTrace", Cfg: "TranslateTrace.cfg", Workers: 1, Timeout: 20 * time.Minute,
+			Data: map[string][]byte{"translate_trace.ndjson": mbt.NDJSONBytes(rows)}})
+		rep.AddTLC(t)
+		if len(t.Violated) > 0 {
+			rep.Fail(mbt.Failure{Signature: "C12|trace|invariant " + strings.Join(t.Violated, ","), What: "a replayed execution of the real translator violates the model's invariant(s):\n" + mbt.Truncate(tail(t.Output, 3000), 3000), Case: map[string]string{}})
+		} else if strings.Contains(t.Output, "Deadlock reached") {
+			// The translator no longer follows the phase structure of Translate.tla (phases reordered,
+			// merged or split, an entity processed twice or not at all). That is not by itself a breach
+			// of C12, but the model no longer describes this code: nothing this check says about
+			// processing orders can be believed until the model is brought up to date.
+			mbt.Infra("a hook trace of the real translator is not a behaviour of Translate.tla; last states:\n%s", mbt.Truncate(tail(t.Output, 3500), 3500))
+		} else {
+			rep.TracesValidated += traces
+		}
+		t.Cleanup()
+	}
+	distinctOrders, multi := 0, 0
+	for _, set := range ordersSeen {
+		distinctOrders += len(set)
+		if len(set) > 1 {
+			multi++
+		}
+	}
+	rep.Extra["inputs"] = len(inputs)
+	rep.Extra["repetitions_per_input"] = reps
+	rep.Extra["distinct_processing_orders_observed"] = distinctOrders
+	rep.Extra["inputs_with_more_than_one_order_observed"] = multi
+	rep.Extra["hook_traces_validated"] = traces
+	rep.Extra["child_processes"] = children
+	if multi == 0 {
+		mbt.Infra("no input was observed under two different processing orders: the run could not have seen order dependence")
+	}
+	rep.Assumptions = []string{"map orders are those the Go runtime produced in this run (counted in the evidence); the model covers all orders",
+		"race freedom of concurrent parses is judged by the Go race detector on the executed schedules"}
+	rep.Finish()
+}
+
+func tail(s string, n int) string {
+	if len(s) <= n {
+		return s
+	}
+	return s[len(s)-n:]
+}
